@@ -39,7 +39,7 @@ pub enum P {
 }
 
 impl P {
-    fn wire(&self) -> String {
+    pub fn wire(&self) -> String {
         let j = |v: &Vec<P>| v.iter().map(|x| x.wire()).collect::<Vec<_>>().join(",");
         match self {
             P::U => "U".into(), P::T => "T".into(),
@@ -142,7 +142,7 @@ impl PKey for PublicKey {
 
 /* ------------------------------------------------------------ conversions */
 
-fn to_concrete<K: PKey>(p: &P) -> Option<Concrete<K>> {
+pub fn to_concrete<K: PKey>(p: &P) -> Option<Concrete<K>> {
     let kids = |v: &Vec<P>| -> Option<Vec<Arc<Concrete<K>>>> { v.iter().map(|x| to_concrete::<K>(x).map(Arc::new)).collect() };
     Some(match p {
         P::U => Concrete::Unsatisfiable, P::T => Concrete::Trivial,
@@ -177,7 +177,7 @@ fn from_concrete<K: PKey>(p: &Concrete<K>) -> P {
         Concrete::Thresh(t) => P::Thresh(t.k(), t.data().iter().map(|x| from_concrete::<K>(x)).collect()),
     }
 }
-fn to_semantic<K: PKey>(p: &P) -> Option<Semantic<K>> {
+pub fn to_semantic<K: PKey>(p: &P) -> Option<Semantic<K>> {
     Some(match p {
         P::U => Semantic::Unsatisfiable, P::T => Semantic::Trivial,
         P::Key(k) => Semantic::Key(K::mk(*k)),
